@@ -115,3 +115,16 @@ Theorem C03_accepted_chunk_means_zero_weighted_residuals : forall (K : Fld), Fld
   weighted_residuals K M H Gb G Hv (to_bs K M ofN dec ms ws) = v0 M.
 Proof. exact accepted_chunk_means_zero_weighted_residuals. Qed.
 Print Assumptions C03_accepted_chunk_means_zero_weighted_residuals.
+
+(** whole batches: Ok exactly when the three slices have equal non-zero length and every chunk of at most
+    256 members is accepted in turn; the result is the concatenation of the chunks' results in order *)
+From BP Require Import Proofs.BatchTopP.
+Theorem C03_verify_batch_ok_iff : forall (K : Fld) ofN mode ns np nt ms orc masks,
+  verify_batch K ofN mode ns np nt ms orc = Ok masks <->
+  (ns <> 0 /\ np = ns /\ nt = ns /\ all_ok (chunk_results K ofN mode (chunks_of (length ms) MAX_BATCH ms) orc) = Some masks).
+Proof. exact verify_batch_ok_iff. Qed.
+Print Assumptions C03_verify_batch_ok_iff.
+Theorem C03_one_refused_chunk_refuses_the_batch : forall (K : Fld) ofN mode ns np nt ms orc,
+  In Err (chunk_results K ofN mode (chunks_of (length ms) MAX_BATCH ms) orc) -> verify_batch K ofN mode ns np nt ms orc = Err.
+Proof. exact verify_batch_err_if_chunk_err. Qed.
+Print Assumptions C03_one_refused_chunk_refuses_the_batch.
